@@ -52,6 +52,7 @@ Fails(c, s) ==
     [] c.kind = "fn"      -> C12FnFails(c)
     [] c.kind = "model"   -> C12ModelFails(c)
     [] c.kind = "intfn"   -> C12IntFails(c)
+    [] c.kind = "intfnwide" -> C12IntWideFails(c)
     [] c.kind = "cnf"     -> C05CnfFails(c)
     [] c.kind = "cnfdeep" -> C05DeepFails(c)
     [] c.kind = "csatdeep" -> C05DeepSatFails(c)
